@@ -415,13 +415,11 @@ class QueryScheduler:
         current = self._next_scheduled_for_alias.get((pointer.key, pointer.alias_key))
         refresh_time_millis = pointer.get_expiration_time(_EXPIRE_REFRESH_TIME_PERCENT)
         if current is not None:
-            # If the expire time is within self._min_time_between_queries_millis
-            # of the current scheduled time avoid churn by not rescheduling
-            if (
-                -self._min_time_between_queries_millis
-                <= refresh_time_millis - current.when_millis
-                <= self._min_time_between_queries_millis
-            ):
+            # If the scheduled time is at most self._min_time_between_queries_millis
+            # ahead of the new refresh time avoid churn by not rescheduling.
+            # A scheduled time after the new refresh time is not kept: the
+            # minimum spacing may hold the query back by another interval
+            if 0 <= refresh_time_millis - current.when_millis <= self._min_time_between_queries_millis:
                 # The scheduled query is kept, the later rescue queries
                 # must follow the TTL and expire time of the new record
                 current.ttl = int(pointer.ttl) if isinstance(pointer.ttl, float) else pointer.ttl
